@@ -142,13 +142,13 @@ def run(chk, replay=None):
     Lib.get()
     chk.assumptions += ["operands are small integers: every FFT64 operation is exact far inside the C01 budget, results compared exactly",
                         "the result is projected with the library's own vec_znx_idft (opaque DFT objects)"]
-    r = run_tlc("Vmp", "Vmp_quick.cfg", workers=16, coverage=True, name="c02-mc")
+    r = run_tlc("Vmp", ("Vmp_quick.cfg" if quick else "Vmp_thorough.cfg"), workers=16, coverage=True, name="c02-mc")
     tlc_must_pass(r, "Vmp exhaustive")
     chk.add_tlc(r, "exhaustive + liveness")
     never = [a for a, (t, g) in r.coverage.items() if t == 0 and a != "Done"]
     if never:
         chk.notes.append("actions never taken: %s" % never)
-    r = run_tlc("Vmp", "Vmp_gen.cfg", workers=1, name="c02-gen")
+    r = run_tlc("Vmp", "Vmp_gen.cfg" if quick else "Vmp_gen_thorough.cfg", workers=1, name="c02-gen", timeout=1800)
     tlc_must_pass(r, "Vmp gen")
     chk.add_tlc(r, "behaviour generation")
     cases = printed_json(r, "CASE")
